@@ -17,10 +17,10 @@ Definition dispatch (kind : string) (args : list string) : string :=
             let h := with_ch0 ops in
             let '(s, rs) := run c (init c) h in
             let obs := show_run s rs in
-            let fs := map (c11_fails c) (trace c (init c) h) in
-            if forallb (fun f => match f with [] => true | _ => false end) fs
-            then out3 obs obs "-"
-            else out3 obs ("viol " ++ show_fails fs) "-"
+            let tr := trace c (init c) h in
+            let fs := map (c11_fails c) tr in
+            if all_nil fs then out3 obs obs "-"
+            else out3 obs ("viol " ++ show_fails fs) (hist_key (c11_class c) (combine tr fs) None)
         | None => BADARGS
         end
     | None => BADARGS
